@@ -8,18 +8,30 @@ from fixtures import v4 as fv4
 
 RULE = ('a case is one chunk store: T<=10 dumps, F<=8 channels, B<=6 products (4 or 12 through a full data set), four '
         'independently drawn chunkings (uneven / all size 1 / single chunk; weights_channel 2-D), per-array dump counts '
-        'differing by up to 3 (phantom chunks), a subset of chunk files deleted per array (empty .. all), a unit-step '
-        'preselection of dumps and/or channels given as raw slice bounds (None, negative, past the end, empty), loaded '
-        'through ChunkStoreVisFlagsWeights, TelstateDataSource(...).data (flags optionally from an attached sdp.flags '
-        'stream) or VisibilityDataV4; compared element by element on vis, weights, flags with the extracted model and '
-        'spec.  Non-trivial: at least one chunk absent (deleted or phantom) inside a non-empty window; distinct by '
-        '(geometry, chunkings, loss set, preselection, path).  Side checks: intersect_1d / intersect_chunks against '
-        'dask.array.rechunk.intersect_chunks, prune_axis against katdal.chunkstore._prune_chunks and the chunks of '
-        'get_dask_array.')
+        'differing by up to 3 or an array without any dump (phantom chunks), a subset of chunk files deleted per array '
+        '(empty .. all), a unit-step preselection of dumps and/or channels given as raw slice bounds (None, negative, past '
+        'the end, empty), loaded through ChunkStoreVisFlagsWeights, TelstateDataSource(...).data (flags optionally from an '
+        'attached sdp.flags stream) or VisibilityDataV4; compared element by element on vis, weights, flags with the '
+        'extracted model and spec.  HISTORIES: one reader store object serves 2-4 loads while chunk files are removed / '
+        'written (other values, over present chunks) by another store object; raw index elements (step None/1) and a '
+        'malformed stream (step 2/-1/0, integers, lists, a third element, unknown preselect keys); the same on a '
+        'DictChunkStore (arrays absent / holding only their first dumps / arriving later, every load repeated, store memory '
+        'compared afterwards).  OPTIONS: two loads (complete store, then with chunks deleted) under van_vleck off/autocorr x '
+        'stored_weights_are_scaled True/False (x applycal through a v4 data set), baseline-axis chunking.  Non-trivial: at '
+        'least one chunk absent (deleted, never written or phantom) inside a non-empty window; distinct by (geometry, '
+        'chunkings, loss set / history, preselection, path, options).  Side checks: intersect_1d / intersect_chunks against '
+        'dask.array.rechunk.intersect_chunks; _prune_chunks (per axis and as a whole on raw / malformed N-d indices), '
+        'TelstateDataSource preselect validation, get_dask_array(errors=...) block by block, _apply_data_lost, '
+        '_upgrade_chunk_info + _align_chunk_info and DictChunkStore.get_chunk against their models.')
 ASSUMPTIONS = ['chunk sizes are positive (zero-size chunks only arise from an empty preselection, where no element exists)',
                'stored values are exactly representable (small integers); weights are compared exactly',
-               'van_vleck off, stored weights already scaled (weights = weights * weights_channel)',
+               'under van_vleck / weight power scaling / applycal the elements NOT affected by a loss are compared with the '
+               'load of the complete store through the same options (same code, same inputs); lost elements with exact '
+               'constants (0, float32(bad_weight) * stored weight)',
+               'the Van Vleck lookup table is strictly increasing (only its first node and the np.interp call are tied)',
                'through VisibilityDataV4 only non-empty preselections (a data set without dumps or channels cannot be constructed)',
+               'a view store holds each array up to a chunk boundary of its dump chunking (a partly present chunk is a '
+               'malformed store: BadChunk, outside the property)',
                'dask graph assembly, numpy slicing assignment and NpyFileChunkStore file naming are exercised, not modelled']
 
 NAMES = fx.ARRAYS
@@ -90,6 +102,8 @@ def gen_case(rng, path=None, small=False):
             for k in NAMES:
                 if rng.random() < 0.4:
                     nd[k] = max(1, T - rng.randint(1, 3))
+    if path != 'v4' and rng.random() < 0.04:
+        nd[rng.choice(NAMES)] = 0          # an array (or the attached flags stream) for which no dump was written at all
     chunks = {}
     for k in NAMES:
         chunks[k] = [rnd_chunks(rng, nd[k]), rnd_chunks(rng, F)]
@@ -296,6 +310,8 @@ def run_cases(ctx, cases, tag='c06'):
         ctx.count('dumps=' + ('equal' if len(set(case['nd'].values())) == 1 else 'differ'))
         ctx.count('lost=' + ('0' if nlost == 0 else '1-3' if nlost <= 3 else '4+'))
         ctx.count('l1=%d' % int(bool(case.get('l1'))))
+        if 0 in case['nd'].values():
+            ctx.count('an_array_without_any_dump')
 
 
 # ----------------------------------------------------------------------------- side ties
@@ -408,12 +424,899 @@ def exhaustive_cases(ctx):
     return cases
 
 
+# ----------------------------------------------------------------------------- round 2: raw indices, options, histories
+
+def enc_opt(v):
+    return [] if v is None else [int(v)]
+
+
+def enc_elt(e):
+    if e[0] == 's':
+        return [0, enc_opt(e[1]), enc_opt(e[2]), enc_opt(e[3])]
+    if e[0] == 'i':
+        return [1, int(e[1])]
+    return [2]
+
+
+def dec_model_elt(m):
+    """Index element as returned by wire_65 -> the elt encoding of the fixtures."""
+    if m[0] == 0:
+        o = [x[0] if x else None for x in m[1:4]]
+        return ['s'] + o
+    if m[0] == 1:
+        return ['i', m[1]]
+    return ['o']
+
+
+def rnd_raw_bound(rng, n):
+    r = rng.random()
+    if r < 0.15:
+        return None
+    if r < 0.35:
+        return rng.randint(-n - 2, -1)
+    if r < 0.45:
+        return n + rng.randint(0, 2)
+    return rng.randint(0, n)
+
+
+def rnd_elt(rng, n, malformed=False):
+    if malformed:
+        k = rng.choice(['step', 'step', 'int', 'other'])
+        if k == 'step':
+            return ['s', rnd_raw_bound(rng, n), rnd_raw_bound(rng, n), rng.choice([2, -1, 0, 3])]
+        if k == 'int':
+            return ['i', rng.randint(-n, n - 1)]
+        return ['o']
+    r = rng.random()
+    if r < 0.15:
+        return ['s', None, None, rng.choice([None, 1])]
+    if r < 0.65:    # mostly a non-empty, in-range window
+        a, b = sorted(rng.sample(range(n + 1), 2)) if n >= 1 else (0, 0)
+        return ['s', a, b, rng.choice([None, None, 1])]
+    if r < 0.75:    # empty on a possible chunk boundary
+        a = rng.randint(0, n)
+        return ['s', a, a, None]
+    return ['s', rnd_raw_bound(rng, n), rnd_raw_bound(rng, n), rng.choice([None, 1])]
+
+
+def elt_kind(e):
+    if e[0] != 's':
+        return 'nonslice'
+    if e[3] not in (None, 1):
+        return 'step'
+    if e[1] is None and e[2] is None:
+        return 'full'
+    if (e[1] is not None and e[1] < 0) or (e[2] is not None and e[2] < 0):
+        return 'negative'
+    if e[1] is None or e[2] is None:
+        return 'open'
+    return 'plain'
+
+
+def tie_prune_raw(ctx, given=None):
+    """_prune_chunks as a whole (index normalisation, unit-step test, per-axis pruning, error branch) against
+    prune_chunks, on N-d chunk specs and raw index tuples; a malformed stream must be refused by both."""
+    from katdal.chunkstore import _prune_chunks
+    from fixtures.c06store import dec_elt
+    rng = ctx.rng
+    cases = [(c['chunks'], c['index'], False) for c in given] if given else []
+    for _ in range(0 if given else ctx.scale(700, 8000)):
+        ndim = rng.randint(1, 3)
+        dims = [rng.randint(1, 12) for _ in range(ndim)]
+        chunks = [rnd_chunks(rng, n) for n in dims]
+        mal = rng.random() < 0.25
+        k = rng.randint(0, ndim)
+        idx = [rnd_elt(rng, dims[i]) for i in range(k)]
+        if mal:
+            if rng.random() < 0.3:
+                idx = [rnd_elt(rng, dims[i]) for i in range(ndim)] + [['s', None, None, None]] * rng.randint(1, 2)
+            else:
+                j = rng.randint(0, ndim - 1)
+                idx = [rnd_elt(rng, dims[i]) for i in range(max(k, j + 1))]
+                idx[j] = rnd_elt(rng, dims[j], malformed=True)
+        cases.append((chunks, idx, mal))
+    mouts = ctx.model([[64, [c, [enc_elt(e) for e in idx]]] for c, idx, _ in cases]) if ctx.model_ok else []
+    for (chunks, idx, mal), m in zip(cases, mouts):
+        case = dict(chunks=chunks, index=idx, kind='prune_raw')
+        try:
+            ch, ix, off = _prune_chunks(tuple(tuple(c) for c in chunks), tuple(dec_elt(e) for e in idx))
+            impl = [[list(map(int, c)), [] if i == slice(None) else [int(i.start), int(i.stop)], int(o)]
+                    for c, i, o in zip(ch, ix, off)]
+        except Exception as e:     # noqa: BLE001
+            impl = 'raises:' + type(e).__name__
+        ctx.count('prune_raw=' + ('malformed' if mal else 'valid'))
+        for e in idx:
+            ctx.count('prune_raw_elt=' + elt_kind(e))
+        if m == [-999]:
+            if not isinstance(impl, str):
+                ctx.disagree('tie=prune_chunks_raw;symptom=malformed_index_answered', case, impl, m,
+                             '_prune_chunks answered an index the model refuses', kind='tie')
+        elif impl != m:
+            ctx.disagree('tie=prune_chunks_raw;symptom=%s' % ('raises' if isinstance(impl, str) else 'differs'), case, impl, m,
+                         '_prune_chunks differs from prune_chunks on a raw index', kind='tie')
+    ctx.extra['prune_raw_cases_vs_impl'] = len(mouts)
+
+
+def tie_preselect(ctx, given=None):
+    """TelstateDataSource(preselect=...) accepts / refuses exactly as preselect_index does (validation only: no store)."""
+    import katsdptelstate
+    from katdal.datasources import TelstateDataSource
+    from fixtures.c06store import dec_elt
+    rng = ctx.rng
+    view = katsdptelstate.TelescopeState().view('c06')
+    cases = [c['preselect'] for c in given] if given else []
+    for _ in range(0 if given else ctx.scale(300, 3000)):
+        keys = rng.choice([[], ['dumps'], ['channels'], ['dumps', 'channels'], ['channels', 'dumps']])
+        pre = [[k, rnd_elt(rng, 6)] for k in keys]
+        r = rng.random()
+        if r < 0.2 and pre:
+            pre[rng.randrange(len(pre))][1] = rnd_elt(rng, 6, malformed=True)
+        elif r < 0.35:
+            pre.insert(rng.randint(0, len(pre)), [rng.choice(['ants', 'dump', 'corrprods', 'Channels', 'spw']), rnd_elt(rng, 6)])
+        cases.append(pre)
+    mouts = ctx.model([[65, [[[ord(c) for c in k], enc_elt(e)] for k, e in pre]] for pre in cases]) if ctx.model_ok else []
+    for pre, m in zip(cases, mouts):
+        try:
+            src = TelstateDataSource(view, 'cb', 'sdp_l0', chunk_store=None, timestamps=np.arange(6.),
+                                     preselect={k: dec_elt(e) for k, e in pre})
+            impl = 'accepted'
+            nts = len(src.timestamps)
+        except IndexError:
+            impl = 'IndexError'
+        except Exception as e:     # noqa: BLE001
+            impl = 'raises:' + type(e).__name__
+        want = 'IndexError' if m == [-999] else 'accepted'
+        ctx.count('preselect=' + want)
+        if impl != want:
+            ctx.disagree('tie=preselect;impl=%s;model=%s' % (impl.split(':')[0], want), dict(preselect=pre, kind='preselect'),
+                         impl, want, 'TelstateDataSource validates preselect differently from preselect_index', kind='tie')
+        elif want == 'accepted' and pre:
+            d = dict(pre)
+            e = d.get('dumps', ['s', None, None, None])
+            if nts != len(range(6)[slice(e[1], e[2], e[3])]):
+                ctx.disagree('tie=preselect;symptom=timestamps', dict(preselect=pre, kind='preselect'), nts, None,
+                             'number of timestamps differs from the preselected dumps', kind='tie')
+    ctx.extra['preselect_cases_vs_impl'] = len(mouts)
+
+
+def classify_block(obj, stored, name):
+    from katdal.chunkstore import PlaceholderChunk
+    if isinstance(obj, Exception):
+        return [3], None
+    if isinstance(obj, PlaceholderChunk):
+        return [1], tuple(obj.shape)
+    a = np.asarray(obj)
+    if a.shape == stored.shape and np.array_equal(a, stored):
+        return [0], a.shape
+    if a.size and np.all(a == a.flat[0]) and float(a.flat[0].real) == int(a.flat[0].real):
+        return [2, int(a.flat[0].real)], a.shape
+    return ['other'], a.shape
+
+
+def tie_getters(ctx):
+    """get_dask_array(errors=...) block by block on a store with absent chunks, against read_block / getter_of;
+    also the shape of every block (PlaceholderChunk.__getitem__ included) against the prune+slice model."""
+    rng = ctx.rng
+    n = 0
+    for _ in range(ctx.scale(10, 120)):
+        case = gen_case(rng, path='vfw', small=True)
+        case['nd'] = {k: max(1, max(case['nd'].values())) for k in NAMES}
+        for k in NAMES:
+            case['chunks'][k][0] = rnd_chunks(rng, case['nd'][k])
+            case['lost'][k] = [list(map(int, i)) for i in fx.all_chunk_indices(case['chunks'][k]) if rng.random() < 0.4]
+        tmp = fv4.scratch_dir('c06get')
+        try:
+            store, info, vals = fx.build_store(case, tmp)
+            T, F = case['nd']['flags'], case['F']
+            for name in rng.sample(NAMES, 2):
+                dims = [T, F]
+                pre = [rnd_window(rng, T), rnd_window(rng, F)][:rng.choice([0, 1, 2])]
+                win = [norm_window(w, d) for w, d in zip(pre, dims)]
+                if any(w and w[0] == w[1] for w in win):
+                    continue
+                index = fx.to_slices(pre)
+                ch = case['chunks'][name]
+                mch = ctx.model([[62, [c, w]] if w else [62, [c, [0, sum(c)]]] for c, w in
+                                 zip(ch, win + [[]] * (len(ch) - len(win)))]) if ctx.model_ok else None
+                for errors in ['placeholder', 'dryrun', 'raise', 0, 8, 5, 'ignore', '', 'Raise']:
+                    is_str = isinstance(errors, str)
+                    try:
+                        blocks, arr = fx.blocks_under(store, info, name, index, errors)
+                    except ValueError:
+                        blocks, arr = None, None
+                    except Exception as e:     # noqa: BLE001
+                        ctx.disagree('tie=getters;errors=%r;symptom=raises:%s' % (errors, type(e).__name__),
+                                     dict(case, kind='getters', array=name, index_pre=pre), repr(e)[:200], None,
+                                     'get_dask_array raised', kind='tie')
+                        continue
+                    queries = []
+                    metas = []
+                    if blocks is None:
+                        queries.append([66, [int(is_str), [ord(c) for c in errors] if is_str else [], 0 if is_str else errors, 1]])
+                        metas.append(None)
+                    else:
+                        full = vals[name]
+                        sel = full[index]
+                        offs = [fx.offsets(c) for c in arr.chunks]
+                        # which stored chunk is behind each block: through the chunk that contains its first element
+                        glo = [w[0] if w else 0 for w in win] + [0] * (full.ndim - len(win))
+                        for bi, obj in blocks:
+                            sl = tuple(slice(int(o[i]), int(o[i + 1])) for o, i in zip(offs, bi))
+                            first = [g + s.start for g, s in zip(glo, sl)]
+                            cidx = [int(np.searchsorted(np.cumsum(c), f, side='right')) for c, f in zip(ch, first)]
+                            present = cidx not in case['lost'][name]
+                            queries.append([66, [int(is_str), [ord(c) for c in errors] if is_str else [],
+                                                 0 if is_str else errors, int(present)]])
+                            metas.append((bi, obj, sel[sl], tuple(s.stop - s.start for s in sl)))
+                    mo = ctx.model(queries) if ctx.model_ok else []
+                    for q, meta, m in zip(queries, metas, mo):
+                        n += 1
+                        ctx.count('getters_errors=%r' % (errors,))
+                        if meta is None:
+                            if m != [3]:
+                                ctx.disagree('tie=getters;errors=%r;symptom=valueerror' % (errors,),
+                                             dict(case, kind='getters', array=name, index_pre=pre), 'ValueError', m,
+                                             'get_dask_array refuses an errors value the model accepts', kind='tie')
+                            continue
+                        bi, obj, stored, shp = meta
+                        got, gshape = classify_block(obj, stored, name)
+                        if got == [0] and len(m) == 2 and m[0] == 2 and np.all(np.asarray(stored) == m[1]):
+                            got = m      # the stored values happen to equal the fill value: indistinguishable
+                        if got != m:
+                            ctx.disagree('tie=getters;errors=%r;block=%s;model=%s' % (errors, got[0], m[0]),
+                                         dict(case, kind='getters', array=name, index_pre=pre, block=list(bi)), got, m,
+                                         'a block of get_dask_array(errors=...) is not what read_block says', kind='tie')
+                        elif gshape is not None and tuple(gshape) != shp:
+                            ctx.disagree('tie=getters;errors=%r;symptom=block_shape' % (errors,),
+                                         dict(case, kind='getters', array=name, index_pre=pre, block=list(bi)), list(gshape),
+                                         list(shp), 'shape of a (placeholder) block differs from the sliced chunk', kind='tie')
+                if mch is not None and arr is not None:
+                    pass
+        finally:
+            fx.rmtree(tmp)
+    ctx.extra['getter_blocks_vs_impl'] = n
+
+
+def tie_apply_data_lost(ctx, given=None):
+    """_apply_data_lost called directly: arbitrary (chunk, slices) lists, placeholder and present chunks mixed, against
+    apply_data_lost; the input array must not be modified."""
+    from katdal.chunkstore import PlaceholderChunk
+    from katdal.vis_flags_weights import _apply_data_lost
+    rng = ctx.rng
+    cases = [(c['orig'], c['shape'], c['lost']) for c in given] if given else []
+    for _ in range(0 if given else ctx.scale(250, 2500)):
+        nd_ = rng.randint(1, 3)
+        shape = [rng.randint(1, 4) for _ in range(nd_)]
+        orig = [rng.randint(0, 255) for _ in range(int(np.prod(shape)))]
+        lost = []
+        for _ in range(rng.choice([0, 0, 1, 2, 3, 5])):
+            sl = []
+            for d in shape:
+                a, b = sorted((rng.randint(0, d), rng.randint(0, d)))
+                sl.append([a, b])
+            lost.append([int(rng.random() < 0.6), sl])
+        cases.append((orig, shape, lost))
+    mouts = ctx.model([[69, [o, sh, l]] for o, sh, l in cases]) if ctx.model_ok else []
+    for (orig, shape, lost), m in zip(cases, mouts):
+        arr = np.array(orig, np.uint8).reshape(shape)
+        keep = arr.copy()
+        flat = []
+        for ph, sl in lost:
+            sls = tuple(slice(a, b) for a, b in sl)
+            flat += [PlaceholderChunk(tuple(shape), np.uint8, 'x') if ph else np.zeros(shape, np.uint8), sls]
+        case = dict(orig=orig, shape=shape, lost=lost, kind='apply_data_lost')
+        try:
+            res = _apply_data_lost(arr, flat)
+        except Exception as e:     # noqa: BLE001
+            ctx.disagree('tie=apply_data_lost;symptom=raises:%s' % type(e).__name__, case, repr(e)[:200], None,
+                         '_apply_data_lost raised', kind='tie')
+            continue
+        ctx.count('apply_data_lost=%s' % ('none' if not lost else 'placeholder' if any(p for p, _ in lost) else 'present-only'))
+        if not np.array_equal(arr, keep):
+            ctx.disagree('obs=flags;what=apply_data_lost;symptom=input_modified', case, arr.ravel().tolist(), orig,
+                         '_apply_data_lost modified the stored flags chunk it was given')
+        got = np.asarray(res).astype(np.int64).ravel().tolist()
+        if got != m:
+            bad = [i for i, (x, y) in enumerate(zip(got, m)) if x != y][:1]
+            ctx.disagree('obs=flags;what=apply_data_lost;symptom=%s' % classify('flags', np.array(got), np.array(m)), case,
+                         dict(at=bad, impl=got, expected=m), m, '_apply_data_lost differs from apply_data_lost')
+    ctx.extra['apply_data_lost_cases_vs_impl'] = len(mouts)
+
+
+def rnd_info(rng, nd_, F, B, ndim=3):
+    shape = [nd_, F, B][:ndim]
+    return [shape, [rnd_chunks(rng, n) for n in shape]]
+
+
+def tie_chunk_info(ctx, given=None):
+    """_upgrade_chunk_info + _align_chunk_info on chunk_info dicts (shape and chunks fields; mismatching trailing shapes
+    and records whose shape field disagrees with the chunks as the malformed stream) against source_info."""
+    import copy
+    from katdal.datasources import _align_chunk_info, _upgrade_chunk_info
+    rng = ctx.rng
+    cases = [(c['l0'], c['l1']) for c in given] if given else []
+    for _ in range(0 if given else ctx.scale(300, 3000)):
+        F, B = rng.randint(1, 5), rng.randint(1, 4)
+        T = rng.randint(1, 8)
+        l0 = []
+        for k in NAMES:
+            n = T if rng.random() < 0.6 else max(1, T + rng.randint(-3, 3))
+            l0.append(rnd_info(rng, n, F, B, 2 if k == 'weights_channel' else 3))
+        l1 = []
+        r = rng.random()
+        if r < 0.6:
+            n1 = max(1, T + rng.randint(-3, 4))
+            l1 = rnd_info(rng, n1, F, B)
+            if rng.random() < 0.15:
+                l1 = rnd_info(rng, n1, F + rng.choice([0, 1]), B + rng.choice([1, 2]))
+        if rng.random() < 0.1:     # shape field not the sum of the chunks: the code believes the shape field
+            i = rng.randrange(4)
+            l0[i][0] = [l0[i][0][0] + rng.choice([-1, 1, 2])] + l0[i][0][1:]
+        cases.append((l0, l1))
+    mouts = ctx.model([[68, [l0, l1]] for l0, l1 in cases]) if ctx.model_ok else []
+    for (l0, l1), m in zip(cases, mouts):
+        def mk(i):
+            return {'prefix': 'p', 'dtype': '<f4', 'shape': tuple(i[0]), 'chunks': tuple(tuple(c) for c in i[1])}
+        info = {k: mk(i) for k, i in zip(NAMES, l0)}
+        case = dict(l0=l0, l1=l1, kind='chunk_info')
+        ctx.count('chunk_info=' + ('l0-only' if not l1 else 'flags-longer' if l1[0][0] > max(i[0][0] for i in l0) else
+                                   'flags-shorter-or-equal'))
+        try:
+            if l1:
+                info = _upgrade_chunk_info(info, {'flags': mk(l1)})
+            info = _align_chunk_info(copy.deepcopy(info))
+            impl = [[list(map(int, info[k]['shape'])), [list(map(int, c)) for c in info[k]['chunks']]] for k in NAMES]
+        except ValueError:
+            impl = [-999]
+        except Exception as e:     # noqa: BLE001
+            impl = 'raises:' + type(e).__name__
+        if impl != m:
+            sym = 'refusal' if (impl == [-999] or m == [-999]) else 'raises' if isinstance(impl, str) else \
+                'dumps' if [i[0][0] for i in impl] != [i[0][0] for i in m] else 'chunks'
+            ctx.disagree('tie=chunk_info;symptom=%s' % sym, case, impl, m,
+                         '_upgrade_chunk_info / _align_chunk_info differ from source_info', kind='tie')
+    ctx.extra['chunk_info_cases_vs_impl'] = len(mouts)
+
+
+def tie_view_store_get(ctx, given=None):
+    """DictChunkStore.get_chunk (a store that serves views): found / ChunkNotFound / BadChunk against dict_get_chunk."""
+    from katdal.chunkstore import BadChunk, ChunkNotFound
+    from katdal.chunkstore_dict import DictChunkStore
+    rng = ctx.rng
+    cases = [(c['shape'], c['slices']) for c in given] if given else []
+    for _ in range(0 if given else ctx.scale(400, 4000)):
+        shape = [rng.randint(1, 5) for _ in range(rng.randint(1, 3))]
+        sl = []
+        for n in shape:
+            r = rng.random()
+            if r < 0.6:
+                a, b = sorted((rng.randint(0, n), rng.randint(0, n)))
+            elif r < 0.8:
+                a = n + rng.randint(0, 2)
+                b = a + rng.randint(0, 2)
+            else:
+                a = rng.randint(0, n)
+                b = n + rng.randint(0, 2)
+            sl.append([a, b])
+        cases.append((shape, sl))
+    mouts = ctx.model([[601, [sh, sl]] for sh, sl in cases]) if ctx.model_ok else []
+    for (shape, sl), m in zip(cases, mouts):
+        arr = np.arange(int(np.prod(shape)), dtype=np.int32).reshape(shape)
+        store = DictChunkStore(x=arr)
+        slices = tuple(slice(a, b) for a, b in sl)
+        try:
+            ch = store.get_chunk('x', slices, arr.dtype)
+            impl = 0 if (np.array_equal(ch, arr[slices]) and (ch.size == 0 or np.shares_memory(ch, arr))) else 'copy'
+        except ChunkNotFound:
+            impl = 1
+        except BadChunk:
+            impl = 2
+        except Exception as e:     # noqa: BLE001
+            impl = 'raises:' + type(e).__name__
+        ctx.count('view_get=' + {0: 'found', 1: 'not_found', 2: 'malformed'}.get(m, str(m)))
+        if impl != m:
+            ctx.disagree('tie=view_store_get;impl=%s;model=%s' % (impl, m), dict(shape=shape, slices=sl, kind='view_get'), impl, m,
+                         'DictChunkStore.get_chunk differs from dict_get_chunk', kind='tie')
+    ctx.extra['view_store_get_cases_vs_impl'] = len(mouts)
+
+
+# ---- processing options between the chunk store and the user (van_vleck, weight power scaling, applycal)
+
+def gen_option_case(rng, path=None):
+    path = path or rng.choice(['vfw', 'vfw', 'source', 'v4'])
+    T, F = rng.randint(2, 4), rng.randint(1, 3)
+    if path == 'v4':
+        ants = rng.choice([['m000'], ['m000', 'm001']])
+        prods = [list(p) for p in fv4.bls_ordering_for(ants)]
+    else:
+        ants = []
+        n_in = rng.choice([1, 2, 2])
+        labels = ['m000h', 'm000v'][:n_in]
+        prods = [[a, a] for a in labels] + [[a, b] for a in labels for b in labels if a != b and rng.random() < 0.8]
+        prods += [[labels[0], labels[0]]] if rng.random() < 0.2 else []      # a repeated autocorrelation: the last one counts
+        rng.shuffle(prods)
+    B = len(prods)
+    chunks = {k: [rnd_chunks(rng, T), rnd_chunks(rng, F)] + ([] if k == 'weights_channel' else [rnd_chunks(rng, B)])
+              for k in NAMES}
+    p = rng.choice([0.15, 0.3, 0.5, 1.0])
+    only = rng.choice(list(NAMES) + ['correlator_data', 'correlator_data', None, None, None])
+    lost = {k: [list(map(int, i)) for i in fx.all_chunk_indices(chunks[k])
+                if rng.random() < (p if only in (None, k) else 0.0)] for k in NAMES}
+    pre = []
+    for n in [T, F][:rng.choice([0, 0, 1, 2])]:
+        a, b = sorted(rng.sample(range(n + 1), 2))
+        pre.append([a, b] if rng.random() < 0.8 else None)
+    applycal = bool(path == 'v4' and rng.random() < 0.5)
+    scaled = True if applycal else rng.random() < 0.45
+    return dict(kind='options', path=path, T=T, F=F, B=B, ants=ants, prods=prods, chunks=chunks, lost=lost, pre=pre,
+                van_vleck=rng.choice(['off', 'autocorr', 'autocorr']), scaled=scaled, applycal=applycal,
+                seed=rng.randint(0, 10 ** 6), nd={k: T for k in NAMES}, l1=False)
+
+
+def _option_loader(case, tmp):
+    """Returns (load() -> dict(vis, weights, flags), lose()): the same reader store serves both loads."""
+    import dask
+    from katdal.chunkstore_npy import NpyFileChunkStore
+    from katdal.vis_flags_weights import ChunkStoreVisFlagsWeights
+    from katdal.datasources import TelstateDataSource
+    vals = fx.make_values(case)
+    pre = case['pre']
+    if case['path'] == 'v4':
+        from fixtures import c13cal
+        kw = dict(van_vleck=case['van_vleck'])
+        pk = {}
+        if len(pre) > 0 and pre[0] is not None:
+            pk['dumps'] = slice(pre[0][0], pre[0][1])
+        if len(pre) > 1 and pre[1] is not None:
+            pk['channels'] = slice(pre[1][0], pre[1][1])
+        if pk:
+            kw['preselect'] = pk
+        okw = {}
+        extra = {}
+        if case['applycal']:
+            ants = case['ants']
+            g = [[[2, 0] if (i + j) % 2 == 0 else [0, 4] for j in range(len(ants))] for i in range(2)]
+            cal = dict(antlist=ants, pol_ordering=['h', 'v'], center_freq=1284e6, bandwidth=856e6 / 1024 * case['F'],
+                       n_chans=case['F'], products={'G': [[-1, g]]})
+            extra = dict(telstate_hook=c13cal.cal_hook(cal), archived_override=['sdp_l0', 'cal'])
+            okw = dict(applycal=['l1.G'])
+        x = fv4.build_v4(T=case['T'], F=case['F'], ants=tuple(case['ants']), arrays={k: vals[k] for k in NAMES},
+                         chunks={k: tuple(tuple(c) for c in case['chunks'][k]) for k in NAMES}, tmp=tmp,
+                         seed=case['seed'], need_weights_power_scale=not case['scaled'], source_kwargs=kw,
+                         open_kwargs=okw, acts=((0, 'track'),), construct=False, **extra)
+        store, info = x.store, x.chunk_info
+
+        def load():
+            with dask.config.set(scheduler='sync'):
+                d = fv4.reopen(x, kw, okw)
+                return dict(vis=np.asarray(d.vis[:]), weights=np.asarray(d.weights[:]), flags=np.asarray(d.raw_flags[:]))
+    else:
+        store = NpyFileChunkStore(tmp)
+        info = {k: fx.write_array(store, 'cb-sdp-l0', k, vals[k], case['chunks'][k], []) for k in NAMES}
+        prods = [tuple(p) for p in case['prods']]
+        if case['path'] == 'vfw':
+            def load():
+                with dask.config.set(scheduler='sync'):
+                    v = ChunkStoreVisFlagsWeights(store, {k: dict(i) for k, i in info.items()}, corrprods=prods,
+                                                  stored_weights_are_scaled=case['scaled'], van_vleck=case['van_vleck'],
+                                                  preselect_index=fx.to_slices(pre))
+                    return dict(vis=v.vis.compute(), weights=v.weights.compute(), flags=v.flags.compute())
+        else:
+            import katsdptelstate
+            from katdal.datasources import view_l0_capture_stream
+            ts = katsdptelstate.TelescopeState()
+            cs = ts.view(ts.join('cb', 'sdp_l0'))
+            sv = ts.view('sdp_l0')
+            cs['chunk_info'] = info
+            cs['first_timestamp'] = 10.0
+            sv['sync_time'] = 1600000000.0
+            sv['int_time'] = 2.0
+            sv['bls_ordering'] = np.array(prods)
+            sv['need_weights_power_scale'] = not case['scaled']
+            sv['stream_type'] = 'sdp.vis'
+            ts['sdp_archived_streams'] = ['sdp_l0']
+            view, cbid, sn = view_l0_capture_stream(ts, 'cb', 'sdp_l0')
+            pk = {}
+            if len(pre) > 0 and pre[0] is not None:
+                pk['dumps'] = slice(pre[0][0], pre[0][1])
+            if len(pre) > 1 and pre[1] is not None:
+                pk['channels'] = slice(pre[1][0], pre[1][1])
+
+            def load():
+                with dask.config.set(scheduler='sync'):
+                    v = TelstateDataSource(view, cbid, sn, chunk_store=store, van_vleck=case['van_vleck'],
+                                           preselect=pk or None).data
+                    return dict(vis=v.vis.compute(), weights=v.weights.compute(), flags=v.flags.compute())
+
+    def lose():
+        import os
+        for k in NAMES:
+            i = info[k]
+            for idx in case['lost'].get(k, []):
+                sl = fx.chunk_slices([list(c) for c in i['chunks']], idx)
+                os.remove(os.path.join(store.path, i['prefix'], k, '_'.join('%05d' % s.start for s in sl) + '.npy'))
+    return load, lose, vals
+
+
+def auto_positions(prods):
+    """corrprod_to_autocorr as the property needs it: position of the LAST (a, a) product per input"""
+    pos = {}
+    for i, (a, b) in enumerate(prods):
+        if a == b:
+            pos[a] = i
+    return [pos[a] for a, _ in prods], [pos[b] for _, b in prods]
+
+
+def check_option_case(ctx, case, tag='c06opt'):
+    tmp = fv4.scratch_dir(tag)
+    feats = 'options;path=%s;vv=%s;scaled=%d;applycal=%d' % (case['path'], case['van_vleck'], int(case['scaled']),
+                                                              int(case['applycal']))
+    try:
+        try:
+            load, lose, vals = _option_loader(case, tmp)
+            r0 = load()
+            lose()
+            r = load()
+        except Exception as e:     # noqa: BLE001
+            ctx.disagree('%s;symptom=raises:%s' % (feats, type(e).__name__), case, repr(e)[:300], None,
+                         'loading a store with absent chunks raised under a processing option')
+            return None
+    finally:
+        fx.rmtree(tmp)
+    pys, anylost = py_spec(case, vals)
+    # masks inside the window
+    T, F, B = case['T'], case['F'], case['B']
+    miss = {}
+    for k in NAMES:
+        m = np.zeros((T, F) if k == 'weights_channel' else (T, F, B), bool)
+        for idx in case['lost'].get(k, []):
+            m[fx.chunk_slices(case['chunks'][k], idx)] = True
+        miss[k] = m
+    sel = tuple(slice(None) if w is None else slice(w[0], w[1]) for w in case['pre'])
+    sel = sel + (slice(None),) * (2 - len(sel))
+    mv = miss['correlator_data'][sel]
+    mw = (miss['weights'] | miss['weights_channel'][..., None])[sel]
+    i1, i2 = auto_positions(case['prods'])
+    a1, a2 = mv[..., i1], mv[..., i2]
+    have_corrprods = 1
+    combos = sorted({(int(v), int(x), int(y), int(w)) for v, x, y, w in zip(mv.ravel(), a1.ravel(), a2.ravel(), mw.ravel())})
+    mo = ctx.model([[60, [have_corrprods, int(case['scaled'])] + list(c)] for c in combos]) if ctx.model_ok else None
+    if mo is None:
+        divided = not case['scaled']
+        table = {c: [0 if c[0] else 1, 0 if c[3] else (1 if divided and (c[1] or c[2]) else 2), 1, 2 ** 32] for c in combos}
+    else:
+        table = dict(zip(combos, mo))
+    vcls = np.array([table[(int(v), int(x), int(y), int(w))][0] for v, x, y, w in
+                     zip(mv.ravel(), a1.ravel(), a2.ravel(), mw.ravel())]).reshape(mv.shape)
+    wcls = np.array([table[(int(v), int(x), int(y), int(w))][1] for v, x, y, w in
+                     zip(mv.ravel(), a1.ravel(), a2.ravel(), mw.ravel())]).reshape(mv.shape)
+    num, den = (table[combos[0]][2], table[combos[0]][3]) if combos else (1, 2 ** 32)
+    bad = np.float32(num) / np.float32(den)
+    if r['vis'].shape != mv.shape or r0['vis'].shape != mv.shape or r['weights'].shape != mv.shape or r['flags'].shape != mv.shape:
+        ctx.disagree('%s;symptom=shape' % feats, case, [list(r['vis'].shape), list(r['weights'].shape), list(r['flags'].shape)],
+                     list(mv.shape), 'shape of a load under processing options')
+        return None
+    # visibilities: exactly zero where their own chunk is lost, as without the loss elsewhere
+    ev = np.where(vcls == 0, np.complex64(0), r0['vis'])
+    if not np.array_equal(r['vis'], ev):
+        at = np.argwhere(r['vis'] != ev)[0].tolist()
+        sym = 'lost_not_zeroed' if vcls[tuple(at)] == 0 else 'present_changed'
+        ctx.disagree('%s;obs=vis;symptom=%s' % (feats, sym), case,
+                     dict(at=at, impl=repr(r['vis'][tuple(at)]), expected=repr(ev[tuple(at)]), product=case['prods'][at[2]]),
+                     None, 'visibilities of a load with lost chunks under van_vleck=%s' % case['van_vleck'],
+                     spec=dict(at=at, expected=repr(ev[tuple(at)])))
+    # weights: zero / bad_weight * stored weight / as without the loss
+    sw = (vals['weights'].astype(np.float32) * vals['weights_channel'][..., None])[sel]
+    ew = np.where(wcls == 0, np.float32(0), np.where(wcls == 1, bad * sw, r0['weights'])).astype(np.float32)
+    if not np.array_equal(np.asarray(r['weights'], np.float32), ew):
+        at = np.argwhere(np.asarray(r['weights'], np.float32) != ew)[0].tolist()
+        sym = {0: 'lost_not_zeroed', 1: 'not_the_bad_weight', 2: 'present_changed'}[int(wcls[tuple(at)])]
+        ctx.disagree('%s;obs=weights;symptom=%s' % (feats, sym), case,
+                     dict(at=at, impl=float(r['weights'][tuple(at)]), expected=float(ew[tuple(at)]), product=case['prods'][at[2]]),
+                     None, 'weights of a load with lost chunks (stored_weights_are_scaled=%s)' % case['scaled'],
+                     spec=dict(at=at, expected=float(ew[tuple(at)])))
+    # flags: the options do not touch them
+    fl = np.asarray(r['flags']).astype(np.int64)
+    if not np.array_equal(fl, pys['flags']):
+        ctx.disagree('%s;obs=flags;symptom=%s' % (feats, classify('flags', fl, pys['flags'])), case,
+                     first_bad(fl, pys['flags']), None, 'flags of a load with lost chunks under processing options',
+                     spec=first_bad(fl, pys['flags']))
+    ctx.traces_validated += 1
+    return bool(anylost.any())
+
+
+def tie_options(ctx, given=None):
+    rng = ctx.rng
+    cases = list(given) if given else [gen_option_case(rng) for _ in range(ctx.scale(26, 300))] + \
+        [gen_option_case(rng, path='v4') for _ in range(ctx.scale(4, 40))]
+    for case in cases:
+        nt = check_option_case(ctx, case)
+        ctx.note_case(('options', repr(sorted(case.items(), key=lambda kv: kv[0]))), nontrivial=bool(nt),
+                      sample=dict(kind='options', path=case['path'], van_vleck=case['van_vleck'], scaled=case['scaled'],
+                                  applycal=case['applycal'], prods=case['prods'], chunks=case['chunks']))
+        ctx.count('options_path=' + case['path'])
+        ctx.count('options_van_vleck=' + case['van_vleck'])
+        ctx.count('options_scaled=%d' % int(case['scaled']))
+        ctx.count('options_applycal=%d' % int(case['applycal']))
+        ctx.count('options_lost_vis=%d' % int(bool(case['lost']['correlator_data'])))
+    ctx.extra['option_cases_vs_impl'] = len(cases)
+
+
+# ---- histories
+
+def gen_history(rng, small=True):
+    path = rng.choice(['vfw', 'vfw', 'source'])
+    case = gen_case(rng, path=path, small=small)
+    case.pop('lost', None)
+    case.pop('pre', None)
+    case['kind'] = 'history'
+    T, F = max(case['nd'].values()), case['F']
+    allidx = {k: [list(map(int, i)) for i in fx.all_chunk_indices(case['chunks'][k])] for k in NAMES}
+    p0 = rng.choice([0.0, 0.0, 0.15, 0.4])
+    case['absent0'] = {k: [i for i in allidx[k] if rng.random() < p0] for k in NAMES}
+    steps = []
+    absent = {k: [list(i) for i in case['absent0'][k]] for k in NAMES}
+
+    def rnd_index(malformed=False):
+        if path == 'source':
+            keys = rng.choice([[], ['dumps'], ['channels'], ['dumps', 'channels']])
+            d = {k: rnd_elt(rng, T if k == 'dumps' else F) for k in keys}
+            if malformed and d:
+                k = rng.choice(sorted(d))
+                d[k] = rnd_elt(rng, T if k == 'dumps' else F, malformed=True)
+            elif malformed:
+                d['scans'] = ['s', None, None, None]
+            return d
+        k = rng.choice([0, 1, 2, 2])
+        idx = [rnd_elt(rng, [T, F][i]) for i in range(k)]
+        if malformed:
+            if rng.random() < 0.3:
+                idx = [rnd_elt(rng, T), rnd_elt(rng, F), ['s', None, None, None]]     # weights_channel has two axes
+            else:
+                idx = [rnd_elt(rng, T), rnd_elt(rng, F)]
+                idx[rng.randrange(2)] = rnd_elt(rng, T, malformed=True)
+        return idx
+
+    ver = 0
+    for _ in range(rng.randint(2, 4)):
+        # some chunks go, some arrive (possibly with new values), then a load
+        for _ in range(rng.choice([0, 1, 2, 4])):
+            k = rng.choice([n for n in NAMES if allidx[n]])
+            i = rng.choice(allidx[k])
+            steps.append(['del', k, i])
+            if i not in absent[k]:
+                absent[k].append(i)
+        cands = [(k, i) for k in NAMES for i in absent[k]]
+        rng.shuffle(cands)
+        for k, i in cands[:rng.choice([0, 1, 2, 6])]:
+            if rng.random() < 0.4 and ver < 2:
+                ver += 1
+            steps.append(['put', k, i, rng.randint(0, ver)])
+            absent[k].remove(i)
+        if rng.random() < 0.15:     # a present chunk is overwritten
+            k = rng.choice(NAMES)
+            pres = [i for i in allidx[k] if i not in absent[k]]
+            if pres and ver < 2:
+                ver += 1
+                steps.append(['put', k, rng.choice(pres), ver])
+        steps.append(['load', rnd_index(malformed=rng.random() < 0.08)])
+    case['steps'] = steps
+    case['versions'] = ver + 1
+    return case
+
+
+def gen_view_history(rng):
+    """A history on a DictChunkStore: arrays are absent, hold only their first dumps (trailing dumps missing, by whole
+    chunks), arrive or grow later (possibly with new values); every load is followed by a second look."""
+    case = gen_history(rng, small=True)
+    case['store'] = 'dict'
+    case.pop('absent0', None)
+    T, F = max(case['nd'].values()), case['F']
+    bounds = {k: [0] + [int(x) for x in np.cumsum(case['chunks'][k][0])] for k in NAMES}
+
+    def rnd_held(k):
+        r = rng.random()
+        return bounds[k][-1] if r < 0.5 else 0 if r < 0.7 else rng.choice(bounds[k])
+    case['held0'] = {k: rnd_held(k) for k in NAMES}
+    loads = [s for s in case['steps'] if s[0] == 'load']
+    steps = []
+    ver = 0
+    for ld in loads:
+        steps.append(ld)
+        if rng.random() < 0.5:
+            steps.append(ld)                      # the same load again through the same store
+        for k in rng.sample(NAMES, rng.choice([1, 1, 2, 4])):
+            if rng.random() < 0.3 and ver < 2:
+                ver += 1
+            steps.append(['arr', k, bounds[k][-1] if rng.random() < 0.6 else rnd_held(k), rng.randint(0, ver)])
+        steps.append(['load', ld[1] if rng.random() < 0.5 else ([] if case['path'] == 'vfw' else {})])
+    case['steps'] = steps
+    case['versions'] = ver + 1
+    return case
+
+
+def history_numpy_spec(case, present, values, index_np):
+    """Independent numpy statement of the spec at one point of a history.  present: {array: {chunk index tuple: version}}"""
+    Tmax = max(case['nd'].values())
+    F, B = case['F'], case['B']
+    full, miss = {}, {}
+    for k in NAMES:
+        shp = (Tmax, F) if k == 'weights_channel' else (Tmax, F, B)
+        a = np.zeros(shp, fx.DTYPES[k])
+        m = np.ones(shp, bool)
+        for idx, ver in present[k].items():
+            sl = fx.chunk_slices(case['chunks'][k], idx)
+            a[sl] = values[ver][k][sl]
+            m[sl] = False
+        full[k], miss[k] = a, m
+    mv = miss['correlator_data']
+    mw = miss['weights'] | miss['weights_channel'][..., None]
+    ev = np.where(mv, 0, full['correlator_data'])[index_np]
+    ew = np.where(mw, 0, full['weights'].astype(np.float32) * full['weights_channel'][..., None])[index_np]
+    ef = (np.where(miss['flags'], 8, full['flags']) | np.where(mv | mw, 8, 0)).astype(np.uint8)[index_np]
+    return dict(vis=enc_vis(ev), weights=ew.astype(np.int64), flags=ef.astype(np.int64)), (mv | mw | miss['flags'])[index_np]
+
+
+def run_history(ctx, case, tag='c06h'):
+    """Replays one history through katdal (ONE reader store object) and compares every load with the model."""
+    tmp = fv4.scratch_dir(tag)
+    feats = 'path=%s;history' % case['path']
+    nontrivial = False
+    try:
+        view = case.get('store') == 'dict'
+        h = fx.ViewHistory(case) if view else fx.History(case, tmp)
+        if view:
+            feats = 'store=dict;' + feats
+        nload = 0
+        for si, st in enumerate(case['steps']):
+            if st[0] == 'del':
+                h.delete(st[1], st[2])
+                continue
+            if st[0] == 'put':
+                h.put(st[1], st[2], st[3])
+                continue
+            if st[0] == 'arr':
+                h.set_array(st[1], st[2], st[3])
+                continue
+            present = {k: {} for k in NAMES}
+            for op in h.ops:
+                if op[0] == 1:
+                    present[NAMES[op[1]]][tuple(self_idx(case, NAMES[op[1]], op[2]))] = op[3]
+                else:
+                    present[NAMES[op[1]]].pop(tuple(self_idx(case, NAMES[op[1]], op[2])), None)
+            index = st[1]
+            nload += 1
+            where = 'load=%d' % nload
+            # ---- model
+            if case['path'] == 'source':
+                m65 = ctx.model([[65, [[[ord(c) for c in k], enc_elt(e)] for k, e in index.items()]]])[0] if ctx.model_ok else None
+                midx = None if (m65 is None or m65 == [-999]) else [dec_model_elt(x) for x in m65]
+                np_index = (fx.dec_elt(index.get('dumps', ['s', None, None, None])),
+                            fx.dec_elt(index.get('channels', ['s', None, None, None])))
+            else:
+                midx = index
+                np_index = tuple(fx.dec_elt(e) for e in index)
+                m65 = 0
+            mout = None
+            if ctx.model_ok and midx is not None:
+                datas = []
+                for v in range(case['versions']):
+                    vv = h.values(v)
+                    datas.append([enc_vis(vv['correlator_data']).ravel().tolist(), vv['flags'].ravel().astype(int).tolist(),
+                                  vv['weights'].ravel().astype(int).tolist(), vv['weights_channel'].ravel().astype(int).tolist()])
+                mout = ctx.model([[67, [[case['chunks'][k] for k in NAMES], [enc_elt(e) for e in midx], h.ops, datas]]])[0]
+            rejected = ctx.model_ok and (m65 == [-999] or mout == [-999])
+            ctx.count('history_load=' + ('malformed' if rejected else 'valid'))
+            # ---- katdal
+            try:
+                out, held, _ = h.load(index)
+                if view and h.unchanged():
+                    ctx.disagree('%s;obs=flags;symptom=store_memory_modified' % feats, case, h.unchanged(), where,
+                                 'a load modified arrays owned by the chunk store')
+            except Exception as e:     # noqa: BLE001
+                if rejected:
+                    continue
+                ctx.disagree('%s;symptom=raises:%s' % (feats, type(e).__name__), case, repr(e)[:300], where,
+                             'a load in a history of the chunk store raised')
+                return nontrivial
+            try:
+                pys, anylost = history_numpy_spec(case, present, h.vals, np_index)
+            except Exception:     # noqa: BLE001   (an index numpy itself refuses)
+                pys, anylost = None, None
+            impl = dict(vis=enc_vis(out['vis']), weights=np.rint(np.asarray(out['weights']).astype(np.float64)).astype(np.int64),
+                        flags=np.asarray(out['flags']).astype(np.int64))
+            if rejected:
+                # the property only demands that a malformed index is not answered wrongly
+                for obs in ('vis', 'weights', 'flags'):
+                    if pys is None or impl[obs].shape != pys[obs].shape or not np.array_equal(impl[obs], pys[obs]):
+                        ctx.disagree('%s;obs=%s;symptom=malformed_index_answered_wrongly' % (feats, obs), case, where, None,
+                                     'an index the model refuses was answered with data that is not the selection')
+                continue
+            if mout is None:
+                model = spec = None
+            else:
+                shape = pys['vis'].shape
+                if tuple(mout[0]) != shape and not (int(np.prod(mout[0])) == 0 and int(np.prod(shape)) == 0):
+                    ctx.disagree('%s;symptom=model_shape' % feats, case, list(shape), list(mout[0]),
+                                 'model window shape differs (%s)' % where, kind='tie')
+                    return nontrivial
+                model = dict(vis=mout[2], weights=mout[4], flags=mout[6])
+                spec = dict(vis=mout[3], weights=mout[5], flags=mout[7])
+                io = dict(vis=mout[8], weights=mout[9], flags=mout[10])
+            if case['path'] == 'source' and midx is not None and held != tuple(fx.dec_elt(e) for e in midx):
+                ctx.disagree('%s;symptom=preselect_index' % feats, case, repr(held), midx,
+                             'preselect_index held by katdal differs from the model (%s)' % where, kind='tie')
+            for obs in ('vis', 'weights', 'flags'):
+                shape = pys[obs].shape
+                if impl[obs].shape != shape or not np.array_equal(impl[obs], pys[obs]):
+                    ctx.disagree('%s;obs=%s;symptom=%s' % (feats, obs, 'shape' if impl[obs].shape != shape else
+                                                           classify(obs, impl[obs], pys[obs])), case,
+                                 dict(first_bad(impl[obs], pys[obs]), load=nload), None,
+                                 'katdal differs from the spec on %s at %s of a history' % (obs, where),
+                                 spec=first_bad(impl[obs], pys[obs]))
+                if model is None:
+                    continue
+                mm = np.array(model[obs], dtype=np.int64).reshape(shape)
+                ss = np.array(spec[obs], dtype=np.int64).reshape(shape)
+                ii = np.array([x[0] if x else -10 ** 9 for x in io[obs]], dtype=np.int64).reshape(shape)
+                if not np.array_equal(ss, pys[obs]):
+                    ctx.disagree('%s;obs=%s;symptom=coq_spec_vs_numpy_spec' % (feats, obs), case,
+                                 dict(first_bad(pys[obs], ss), load=nload), None,
+                                 'extracted spec differs from the numpy statement of the spec', kind='tie')
+                if impl[obs].shape == shape and not np.array_equal(impl[obs], mm):
+                    ctx.disagree('%s;obs=%s;tie;symptom=%s' % (feats, obs, classify(obs, impl[obs], mm)), case,
+                                 dict(first_bad(impl[obs], mm), load=nload), None,
+                                 'katdal differs from the model on %s at %s of a history' % (obs, where), kind='tie')
+                if not np.array_equal(ii, mm):
+                    ctx.disagree('%s;obs=%s;symptom=io_model' % (feats, obs), case, dict(first_bad(ii, mm), load=nload), None,
+                                 'getter-level model differs from the core model', kind='tie')
+            ctx.traces_validated += 1
+            if anylost is not None and anylost.any():
+                nontrivial = True
+    finally:
+        fx.rmtree(tmp)
+    return nontrivial
+
+
+def self_idx(case, name, ident):
+    """chunk index tuple from the chunk's start coordinates"""
+    return [fx.offsets(c).index(s) for c, s in zip(case['chunks'][name], ident)]
+
+
+def canon_history(case):
+    return ('history', case['F'], case['B'], sorted(case['nd'].items()), sorted((k, v) for k, v in case['chunks'].items()),
+            sorted((k, v) for k, v in case.get('absent0', case.get('held0', {})).items()), repr(case['steps']), case['path'],
+            case.get('l1'), case.get('store'))
+
+
+def run_histories(ctx, cases, tag='c06h'):
+    for case in cases:
+        nt = run_history(ctx, case, tag)
+        nput = sum(1 for s in case['steps'] if s[0] in ('put', 'arr'))
+        ndel = sum(1 for s in case['steps'] if s[0] == 'del')
+        ctx.count('history_store=' + case.get('store', 'npy'))
+        nload = sum(1 for s in case['steps'] if s[0] == 'load')
+        ctx.note_case(canon_history(case), nontrivial=bool(nt),
+                      sample=dict(kind='history', path=case['path'], nd=case['nd'], chunks=case['chunks'], steps=case['steps'][:8]))
+        ctx.count('history_path=' + case['path'])
+        ctx.count('history_loads=%d' % nload)
+        ctx.count('history_puts=' + ('0' if not nput else '1-2' if nput <= 2 else '3+'))
+        ctx.count('history_dels=' + ('0' if not ndel else '1-2' if ndel <= 2 else '3+'))
+        ctx.count('history_l1=%d' % int(bool(case.get('l1'))))
+        for s in case['steps']:
+            if s[0] == 'load':
+                for e in (s[1].values() if isinstance(s[1], dict) else s[1]):
+                    ctx.count('history_elt=' + elt_kind(e))
+
+
 # ----------------------------------------------------------------------------- entry points
 
 def run_findings(ctx):
     for f in ctx.findings:
         w = f.get('witness')
-        if w:
+        if w and w.get('kind') == 'history':
+            run_histories(ctx, [w], tag='c06kf')
+        elif w:
             run_cases(ctx, [w], tag='c06kf')
 
 
@@ -422,9 +1325,19 @@ def run(ctx):
     if ctx.model_ok:
         tie_intersect(ctx)
         tie_prune(ctx)
+        tie_prune_raw(ctx)
+        tie_preselect(ctx)
+        tie_apply_data_lost(ctx)
+        tie_chunk_info(ctx)
+        tie_getters(ctx)
+        tie_view_store_get(ctx)
     rng = ctx.rng
-    cases = [gen_case(rng) for _ in range(ctx.scale(450, 6000))]
-    cases += [gen_case(rng, small=True) for _ in range(ctx.scale(150, 1500))]
+    hist = [gen_history(rng) for _ in range(ctx.scale(100, 1500))]
+    run_histories(ctx, hist)
+    run_histories(ctx, [gen_view_history(rng) for _ in range(ctx.scale(40, 500))], tag='c06v')
+    tie_options(ctx)
+    cases = [gen_case(rng) for _ in range(ctx.scale(320, 6000))]
+    cases += [gen_case(rng, small=True) for _ in range(ctx.scale(100, 1500))]
     cases += [gen_case(rng, path='v4', small=True) for _ in range(ctx.scale(6, 200))]
     for i in range(0, len(cases), 200):
         run_cases(ctx, cases[i:i + 200])
@@ -447,7 +1360,30 @@ def run(ctx):
 
 def replay(ctx, doc):
     case = doc.get('case', {})
-    if 'chunks' in case and 'path' in case:
+    kind = case.get('kind')
+    if kind == 'history':
+        run_histories(ctx, [case], tag='c06rp')
+    elif kind == 'options':
+        tie_options(ctx, [case])
+    elif kind == 'view_get':
+        tie_view_store_get(ctx, [case])
+        ctx.note_case(('view_get', repr(case)))
+    elif kind == 'prune_raw':
+        tie_prune_raw(ctx, [case])
+        ctx.note_case(('prune_raw', repr(case)))
+    elif kind == 'preselect':
+        tie_preselect(ctx, [case])
+        ctx.note_case(('preselect', repr(case)))
+    elif kind == 'apply_data_lost':
+        tie_apply_data_lost(ctx, [case])
+        ctx.note_case(('adl', repr(case)))
+    elif kind == 'chunk_info':
+        tie_chunk_info(ctx, [case])
+        ctx.note_case(('chunk_info', repr(case)))
+    elif kind == 'getters':
+        tie_getters(ctx)
+        ctx.note_case(('getters', repr(case.get('chunks'))))
+    elif 'chunks' in case and 'path' in case:
         run_cases(ctx, [case], tag='c06rp')
     elif 'old' in case:
         m = ctx.model([[61, [case['old'], case['new']]]])[0]
